@@ -24,6 +24,9 @@ theorem unprepared_recovered (s : PState) (k : Stmt) (pl : List Host) (hc : s.ca
         · simp
         · exact ih _ hc
         · exact ih _ hc
+        · split
+          · simp
+          · exact ih _ hc
 
 /-- the cache is never emptied by the recovery itself -/
 theorem execPlan_cache (s : PState) (k : Stmt) (pl : List Host) : (execPlan s k pl).2.1.cache = s.cache := by
@@ -41,6 +44,9 @@ theorem execPlan_cache (s : PState) (k : Stmt) (pl : List Host) : (execPlan s k 
           · rfl
           · rw [ih]
           · rw [ih]
+          · split
+            · rfl
+            · rw [ih]
 
 /-- **cache_filled** — a successfully answered PREPARE has put the statement into the cache, on
 whichever host it ended up -/
@@ -57,6 +63,7 @@ theorem cache_filled (s : PState) (k : Stmt) (pl : List Host) (h : (prepPlan s k
       split
       · simp
       · rename_i hf; simp only [hf] at h; exact ih _ h
+      · rename_i hf; simp only [hf] at h; cases h
       · rename_i hf; simp only [hf] at h; exact ih _ h
 
 theorem execPlan_not_prepared (s : PState) (k : Stmt) (pl : List Host) : (execPlan s k pl).1 ≠ .prepared := by
@@ -74,6 +81,28 @@ theorem execPlan_not_prepared (s : PState) (k : Stmt) (pl : List Host) : (execPl
           · simp
           · exact ih _
           · exact ih _
+          · split
+            · simp
+            · exact ih _
+
+theorem execPlan_not_err (s : PState) (k : Stmt) (pl : List Host) : (execPlan s k pl).1 ≠ .err := by
+  induction pl generalizing s with
+  | nil => simp [execPlan]
+  | cons h rest ih =>
+    unfold execPlan
+    split
+    · exact ih s
+    · split
+      · simp
+      · split
+        · simp
+        · split
+          · simp
+          · exact ih _
+          · exact ih _
+          · split
+            · simp
+            · exact ih _
 
 /-- **reprepare_failure_next_host** — the request is always answered: success, or "no more hosts"
 once every host was tried; a failed re-prepare moves on instead of hanging -/
@@ -81,12 +110,13 @@ theorem execute_answered (s : PState) (k : Stmt) (pl : List Host) (hc : s.cache 
     (execPlan s k pl).1 = .ok ∨ (execPlan s k pl).1 = .proxyerr := by
   have h1 := unprepared_recovered s k pl hc
   have h2 := execPlan_not_prepared s k pl
-  generalize (execPlan s k pl).1 = r at h1 h2
+  have h3 := execPlan_not_err s k pl
+  generalize (execPlan s k pl).1 = r at h1 h2 h3
   cases r <;> simp_all
 
 /-- a host that holds the statement, or on which the re-prepare succeeds, answers the request:
 if some live host of the plan has no scripted PREPARE failure the client gets a result -/
-theorem execute_succeeds (s : PState) (k : Stmt) (pl : List Host) (hc : s.cache k = true)
+theorem execute_succeeds (s : PState) (k : Stmt) (pl : List Host) (hc : s.cache k = true) (hk : idem k = true)
     (hgood : ∃ h ∈ pl, s.down h = false ∧ s.failNext h = none) : (execPlan s k pl).1 = .ok := by
   induction pl generalizing s with
   | nil => obtain ⟨h, hm, _⟩ := hgood; cases hm
@@ -113,6 +143,15 @@ theorem execute_succeeds (s : PState) (k : Stmt) (pl : List Host) (hc : s.cache 
           · refine ⟨h, hm', h1, ?_⟩
             simp only; split <;> simp_all
         · rename_i hf
+          show (execPlan { s with failNext := fun h' => if h' = a then none else s.failNext h' } k rest).1 = .ok
+          apply ih { s with failNext := fun h' => if h' = a then none else s.failNext h' } hc
+          obtain ⟨h, hm, h1, h2⟩ := hgood
+          rcases List.mem_cons.mp hm with rfl | hm'
+          · simp [hf] at h2
+          · refine ⟨h, hm', h1, ?_⟩
+            simp only; split <;> simp_all
+        · rename_i hf
+          simp only [hk, Bool.not_true, Bool.false_eq_true, ↓reduceIte]
           show (execPlan { s with failNext := (fun h' => if h' = a then none else s.failNext h'),
                                   down := fun h' => h' = a ∨ s.down h' } k rest).1 = .ok
           apply ih { s with failNext := (fun h' => if h' = a then none else s.failNext h'),
@@ -124,5 +163,21 @@ theorem execute_succeeds (s : PState) (k : Stmt) (pl : List Host) (hc : s.cache 
             refine ⟨h, hm', ?_, ?_⟩
             · simp [hne, h1]
             · simp [hne, h2]
+
+/-- **reprepare_error_moves_on** — when the re-PREPARE on the first live host of the plan is
+answered with an error (retryable or not), the request - idempotent or not: it has not run
+anywhere - continues with the rest of the plan; the PREPARE's error is not what the client gets -/
+theorem reprepare_error_moves_on (s : PState) (k : Stmt) (h : Host) (rest : List Host) (f : Fail)
+    (hd : s.down h = false) (hh : s.has h k = false) (hc : s.cache k = true) (hf : s.failNext h = some f) (hne : f ≠ .drop) :
+    (execPlan s k (h :: rest)).1 = (execPlan { s with failNext := fun h' => if h' = h then none else s.failNext h' } k rest).1 := by
+  cases f with
+  | err => simp [execPlan, hd, hh, hc, hf]
+  | inv => simp [execPlan, hd, hh, hc, hf]
+  | drop => exact absurd rfl hne
+
+/-- non-vacuity: three hosts, the statement cached, the first host's re-prepare refused as INVALID:
+the second host answers -/
+example : (execPlan { (init 3) with cache := fun _ => true, failNext := fun h => if h = 0 then some .inv else none } 3 [0, 1, 2]).1 = .ok := by
+  decide
 
 end CqlVerif.C08
